@@ -172,7 +172,8 @@ int64_t carquet_column_skip(
 
     void* temp = malloc(chunk_size * value_size);
     if (!temp) {
-        return 0;
+        /* Not "nothing left to skip": the caller must be able to tell */
+        return -1;
     }
 
     while (total_skipped < num_values && reader->values_remaining > 0) {
@@ -182,6 +183,12 @@ int64_t carquet_column_skip(
         }
 
         int64_t skipped = carquet_column_read_batch(reader, temp, to_skip, NULL, NULL);
+        if (skipped < 0 && total_skipped == 0) {
+            /* Failed before anything was skipped: report it, a 0 would read
+             * as the end of the column */
+            free(temp);
+            return -1;
+        }
         if (skipped <= 0) {
             break;
         }
